@@ -128,6 +128,12 @@ InstallEndOk ==
                     !.ver = IF s.ins.site # 0 THEN Append(@, [site |-> s.ins.site, n |-> s.ins.n]) ELSE @,
                     !.ins = [f |-> "none"]]
 
+\* a builder dropped without a terminal call: nothing happened
+InstallEndAbandoned ==
+  /\ Step("InstallEnd") /\ s.phase = "install" /\ Ev.outcome = "abandoned"
+  /\ Req("C03", ~s.touched) /\ Req("C12", ~s.touched /\ s.pend = {}) /\ Req("C05", ~s.touched)
+  /\ s' = [s EXCEPT !.phase = "user", !.ins = [f |-> "none"]]
+
 \* an installation that panicked: a refusal (signature, bool gate, null) precedes every
 \* modification; an allocation failure leaves nothing mapped and the entry untouched
 InstallEndPanic ==
@@ -229,7 +235,7 @@ Neighbour == Step("Neighbour") /\ Req("C03", Ev.ok) /\ s' = s
 
 TraceNext ==
   \/ Target \/ Acquire \/ InstallBegin \/ Mmap \/ Munmap \/ WriteTramp \/ WriteEntry \/ WriteOther
-  \/ Flush \/ Mprotect \/ InstallEndOk \/ InstallEndPanic \/ Call \/ UserPanic \/ DropBegin \/ DropEnd
+  \/ Flush \/ Mprotect \/ InstallEndOk \/ InstallEndAbandoned \/ InstallEndPanic \/ Call \/ UserPanic \/ DropBegin \/ DropEnd
   \/ Diff \/ Fresh \/ ChildExit \/ Note \/ CallUnwind \/ Neighbour
 
 TraceSpec == TraceInit /\ [][TraceNext]_tvars
